@@ -27,7 +27,7 @@ ASSUMPTIONS = [
     "window 0 / negative / non-integer windows are outside the quantifier (1 <= w) and not driven",
 ]
 REQUIRED = {"all": ["w_eq_1", "w_eq_N", "w_gt_N_rejected", "even_windows", "odd_windows", "delta_link_checked",
-                    "user_groups", "default_groups", "invalid_group_rejected", "histidine_windows", "default_window_calls", "numpy_int_windows", "windows_ge_128_sequences", "empty_user_groups"]}
+                    "user_groups", "default_groups", "invalid_group_rejected", "histidine_windows", "default_window_calls", "numpy_int_windows", "windows_ge_128_sequences", "empty_user_groups", "repeated_user_groups"]}
 LP = {"quick": 7, "thorough": 8}
 NRANDOM = {"quick": 500, "thorough": 3000}
 DEFAULT_GROUPS = ["ED", "RK", "RKED", "QNSTGHC", "ALMIV", "FYW", "P"]
@@ -237,6 +237,10 @@ def check_composition(rep, S, obj, seq, w, rng):
             if gi > 0 and rng.random() < 0.1:
                 g = []                      # an empty group is a legal group: its density is 0 everywhere
                 rep.cnt("empty_user_groups")
+            elif gi > 0 and rng.random() < 0.15:
+                g = list(groups[0])         # the same letters as the first group again (other order / case)
+                rng.shuffle(g)
+                rep.cnt("repeated_user_groups")
             groups.append("".join(g))
             v = [c.lower() if rng.random() < 0.3 else c for c in g]
             arg.append(v if rng.random() < 0.6 else (tuple(v) if rng.random() < 0.5 else "".join(v)))
